@@ -387,7 +387,7 @@ func (wa *writeAnalyzer) bodyWrites(fn *ssa.Function) *WriteSet {
 func (eng *Engine) modifiesKeys(c *FuncContract, fn *ssa.Function) *WriteSet {
 	ex := newExec(eng, fn, c)
 	ex.inSpec = 1 // no assumptions, no obligations
-	st := &State{pc: True, locals: map[*ssa.Alloc][]*Term{}, heap: newHeap(), wm: Const("wm.scratch", IntSort)}
+	st := &State{pc: True, locals: map[*ssa.Alloc][]*Term{}, heap: newHeap(Const("wm.scratch", IntSort)), wm: Const("wm.scratch", IntSort)}
 	base := st.heap.base
 	vars := map[string]Value{}
 	for _, p := range fn.Params {
